@@ -569,6 +569,17 @@ def check_tt(pid, tier, seed):
                 hsumm["inserts"] += o["inserts"]
                 hsumm["finds"] += o["finds"]
                 traces.append(tr)
+    # 3b. read-your-writes: every thread on keys of its own, free-running, in buckets that cannot fill
+    osumm = {"runs": 0, "calls": 0}
+    for threads in ([2, 8, 16, 32] if quick else [2, 4, 8, 12, 16, 24, 32]):
+        for (t, b) in [(1, 64), (2, 32)]:
+            for rep in range(2 if quick else 8):
+                k += 1
+                tr = os.path.join(wd, "tt_own_%03d.ndjson" % k)
+                o = json.loads(wv(wvbin, ["tt-own", "--threads", threads, "--ops", 400, "--seed", seed * 31 + k, "--tables", t, "--buckets", b, "--out", tr]).strip().splitlines()[-1])
+                osumm["runs"] += 1
+                osumm["calls"] += o["calls"]
+                traces.append(tr)
     res = tlc_many([dict(module="TTTrace", trace=t, xmx="4g", timeout=2400) for t in traces])
     chk.add_tlc(res)
     fold_diags(chk, res, pid)
@@ -578,7 +589,7 @@ def check_tt(pid, tier, seed):
                 tool_error("recorded linearisation rejected: %s" % json.dumps(d))
     sample = read_events(traces[0])[:4]
     chk.coverage.update({"traces_validated_against_impl": len(traces), "events_validated": sum(r["accepted"] or 0 for r in res),
-                         "samples": sample, "spec_behaviours_replayed": summ, "concurrent_runs": hsumm,
+                         "samples": sample, "spec_behaviours_replayed": summ, "concurrent_runs": hsumm, "read_your_writes_runs": osumm,
                          "evaluations": summ["ops"] + hsumm["inserts"] + hsumm["finds"], "distinct_nontrivial": summ["behaviours"] + hsumm["runs"],
                          "rule": "TLC-simulated behaviours of TT.tla (3 threads x 60 ops over 15 keys of which 11 share one bucket of 8 slots) executed single- and multi-threaded on the real table; real threads (2..32) hammering tables of 1..3 sub-tables x 1..3 buckets with aligned/colliding/uniform keys; events linearised by the in-lock version counter and validated by TTTrace's subset construction"})
     chk.assumptions += ["events are emitted inside insert/find while the sub-table lock is held (hook), so (table, version) is the linearisation order"]
